@@ -1,7 +1,11 @@
 (* C12 — safety of the partition-consumer shutdown model (PCons.v): for every schedule and every
    moment of AsyncClose/Close, nothing closes a closed channel, sends on a closed channel or drives
    acks negative.  The invariant is the ownership discipline of the child (exactly one owner, or the
-   trigger is closed) together with the feeder / worker hand-shake. *)
+   trigger is closed) together with the feeder / worker hand-shake.
+
+   Proof engineering: program points are numbered so that every class the invariant speaks about is a
+   range; booleans are read through [b2n].  All invariant clauses are then linear arithmetic over these
+   numbers, and preservation by each action is discharged by [lia] after the case analysis of [step]. *)
 From Coq Require Import List Arith Bool Lia.
 From SV Require Import C12.Lts C12.LtsProofs C12.Tac C12.PCons.
 Import ListNotations.
@@ -9,69 +13,87 @@ Import ListNotations.
 Module PCP.
   Import PC.
 
-  (* ---- classification of program points ---- *)
-  Definition dI (d : dpc) : nat := match d with DSel | DUnref | DNet | DSub | DErr | DTok => 1 | _ => 0 end.
-  Definition dexit (d : dpc) : bool := match d with DExit | DCloseF | DDone => true | _ => false end.
-  Definition fI (f : fpc) : nat := match f with FLimbo _ | FResub => 1 | _ => 0 end.
-  Definition fbusy (f : fpc) : bool := match f with FParseErr | FMsgs _ _ | FAck => true | _ => false end.
-  Definition fgone (f : fpc) : bool := match f with FCloseM | FCloseE | FDone => true | _ => false end.
-  Definition nI (p : scpc) : nat := match p with SCAbNErr | SCAbNTok => 1 | _ => 0 end.
-  (* program points at which SC works on its subscription *)
-  Definition sc_subs (p : scpc) : bool :=
-    match p with
-    | SCUpdClose | SCFetch | SCFeed | SCAcks | SCHandle | SCHErr _ | SCHTok | SCHClose | SCAbErr | SCAbTok => true
-    | _ => false
-    end.
-  Definition sc_wait (p : scpc) : bool := match p with SCAcks | SCHandle => true | _ => false end.
   Definition b2n (b : bool) : nat := if b then 1 else 0.
-  Definition timedout (r : rr) : bool := match r with RTimedOut => true | _ => false end.
-  Definition rnone (r : rr) : bool := match r with RNone => true | _ => false end.
+  Lemma b2n_le1 b : b2n b <= 1. Proof. destruct b; cbn; lia. Qed.
 
-  (* SC's subscription entry is current (not the stale one left behind by an expired hand-over) *)
-  Definition fresh (s : st) : bool := subs (w s) && negb (timedout (rres s)).
+  (* ---- numbering of program points ---- *)
+  Definition dN (d : dpc) : nat :=
+    match d with DWait => 0 | DSel => 1 | DUnref => 2 | DNet => 3 | DSub => 4 | DErr => 5 | DTok => 6
+               | DExit => 7 | DCloseF => 8 | DDone => 9 end.
+  Definition fN (f : fpc) : nat :=
+    match f with FWait => 0 | FParseErr => 1 | FMsgs _ _ => 2 | FAck => 3 | FLimbo _ => 4 | FResub => 5
+               | FCloseM => 6 | FCloseE => 7 | FDone => 8 end.
+  Definition mN (p : smpc) : nat :=
+    match p with SMLoop => 0 | SMCloseWait => 1 | SMFlush => 2 | SMCloseNS => 3 | SMDone => 4 end.
+  Definition cN (p : scpc) : nat :=
+    match p with
+    | SCFirst => 0 | SCRange => 1 | SCUpd => 2 | SCLen => 3 | SCIdle => 4 | SCAbort => 5 | SCAbLoop => 6 | SCAbWait => 7 | SCDone => 8
+    | SCUpdClose => 10 | SCFetch => 11 | SCFeed => 12 | SCAcks => 13 | SCHandle => 14 | SCHErr _ => 15 | SCHTok => 16 | SCHClose => 17
+    | SCAbErr => 18 | SCAbTok => 19 | SCAbNErr => 20 | SCAbNTok => 21
+    end.
+  Definition rN (r : rr) : nat := match r with RNone => 0 | RTimedOut => 1 | ROOR => 2 | RRedispatch => 3 | ROther => 4 end.
+
+  (* indicators of the ranges used in sums *)
+  Definition dI (d : dpc) : nat := match d with DSel | DUnref | DNet | DSub | DErr | DTok => 1 | _ => 0 end.
+  Definition fI (f : fpc) : nat := match f with FLimbo _ | FResub => 1 | _ => 0 end.
+  Definition nI (p : scpc) : nat := match p with SCAbNErr | SCAbNTok => 1 | _ => 0 end.
+  Definition tI (r : rr) : nat := match r with RTimedOut => 1 | _ => 0 end.
+
+  Lemma dI_spec d : (dI d = 1 /\ 1 <= dN d <= 6) \/ (dI d = 0 /\ (dN d = 0 \/ 7 <= dN d <= 9)).
+  Proof. destruct d; cbn; lia. Qed.
+  Lemma fI_spec f : (fI f = 1 /\ 4 <= fN f <= 5) \/ (fI f = 0 /\ (fN f <= 3 \/ 6 <= fN f <= 8)).
+  Proof. destruct f; cbn; lia. Qed.
+  Lemma nI_spec p : (nI p = 1 /\ 20 <= cN p <= 21) \/ (nI p = 0 /\ cN p <= 19 /\ cN p <> 9).
+  Proof. destruct p; cbn; lia. Qed.
+  Lemma tI_spec r : (tI r = 1 /\ rN r = 1) \/ (tI r = 0 /\ rN r <> 1 /\ rN r <= 4).
+  Proof. destruct r; cbn; lia. Qed.
+  Lemma mN_le p : mN p <= 4. Proof. destruct p; cbn; lia. Qed.
+
+  (* SC's subscription entry is current (not the stale one left behind by an expired hand-over):
+     subs && not timed out, as a 0/1 number *)
+  Definition fresh (s : st) : nat := b2n (subs (w s)) - tI (rres s).
   Definition own (s : st) : nat :=
-    dI (dp s) + b2n (trig_tok (ch s)) + b2n (buf (w s)) + b2n (fresh s) + fI (fp s) + nI (sc (w s)).
+    dI (dp s) + b2n (trig_tok (ch s)) + b2n (buf (w s)) + fresh s + fI (fp s) + nI (sc (w s)).
 
   Record Inv (s : st) : Prop := {
-    i_panic : panic s = false;
+    i_panic : b2n (panic s) = 0;
     (* exactly one owner, or the trigger is closed *)
     i_own : own s + b2n (trig_closed (ch s)) = 1;
-    (* SC-local *)
-    i_scsubs : sc_subs (sc (w s)) = true -> subs (w s) = true;
+    (* SC works on its subscription only while it has it *)
+    i_scsubs : 10 <= cN (sc (w s)) <= 19 -> b2n (subs (w s)) = 1;
     (* child.responseResult is set only while SC waits for / handles the hand-over *)
-    i_rres : rnone (rres s) = false -> sc_wait (sc (w s)) = true /\ subs (w s) = true;
+    i_rres : rN (rres s) <> 0 -> 13 <= cN (sc (w s)) <= 14 /\ b2n (subs (w s)) = 1;
     (* a response in the feeder's hands: SC is in acks.Wait() *)
-    i_busy : (feed_full (ch s) = true \/ fbusy (fp s) = true) ->
-             sc (w s) = SCAcks /\ acks (w s) = 1 /\ timedout (rres s) = false;
-    i_acks0 : (feed_full (ch s) = false /\ fbusy (fp s) = false) -> sc (w s) <> SCFeed -> acks (w s) = 0;
-    i_feed : sc (w s) = SCFeed -> acks (w s) = 1 /\ feed_full (ch s) = false /\ fbusy (fp s) = false /\ rnone (rres s) = true;
-    i_limbo : fI (fp s) = 1 -> feed_full (ch s) = false;
+    i_busy : (b2n (feed_full (ch s)) = 1 \/ 1 <= fN (fp s) <= 3) ->
+             cN (sc (w s)) = 13 /\ acks (w s) = 1 /\ rN (rres s) <> 1;
+    i_acks0 : b2n (feed_full (ch s)) = 0 -> (fN (fp s) = 0 \/ 4 <= fN (fp s)) -> cN (sc (w s)) <> 12 -> acks (w s) = 0;
+    i_feed : cN (sc (w s)) = 12 -> acks (w s) = 1 /\ b2n (feed_full (ch s)) = 0 /\ (fN (fp s) = 0 \/ 4 <= fN (fp s)) /\ rN (rres s) = 0;
+    i_limbo : 4 <= fN (fp s) <= 5 -> b2n (feed_full (ch s)) = 0;
     (* the dispatcher's exit and what follows it *)
-    i_dexit : dexit (dp s) = true -> trig_closed (ch s) = true /\ trig_tok (ch s) = false;
-    i_fclosed : feed_closed (ch s) = true -> dp s = DDone;
-    i_fgone : fgone (fp s) = true -> feed_closed (ch s) = true /\ feed_full (ch s) = false;
-    i_msgs : closed (msgs (ch s)) = true -> fp s = FCloseE \/ fp s = FDone;
-    i_errs : closed (errs (ch s)) = true -> fp s = FDone;
+    i_dexit : 7 <= dN (dp s) -> b2n (trig_closed (ch s)) = 1 /\ b2n (trig_tok (ch s)) = 0;
+    i_fclosed : b2n (feed_closed (ch s)) = 1 -> dN (dp s) = 9;
+    i_fgone : 6 <= fN (fp s) -> b2n (feed_closed (ch s)) = 1 /\ b2n (feed_full (ch s)) = 0;
+    i_msgs : b2n (closed (msgs (ch s))) = 1 -> 7 <= fN (fp s);
+    i_errs : b2n (closed (errs (ch s))) = 1 -> fN (fp s) = 8;
     (* the reference on the worker *)
-    i_ref : if has_broker s then refs (w s) = 1 /\ in_closed (w s) = false
-            else dI (dp s) + b2n (trig_tok (ch s)) + b2n (trig_closed (ch s)) = 1;
-    i_refs0 : has_broker s = false -> dp s <> DSub;
+    i_ref1 : b2n (has_broker s) = 1 -> refs (w s) = 1 /\ b2n (in_closed (w s)) = 0;
+    i_ref0 : b2n (has_broker s) = 0 ->
+             dI (dp s) + b2n (trig_tok (ch s)) + b2n (trig_closed (ch s)) = 1 /\ dN (dp s) <> 4;
     (* the manager's own closes *)
-    i_wait : wait_closed (w s) = true -> sm (w s) <> SMLoop /\ sm (w s) <> SMCloseWait;
-    i_ns : ns_closed (w s) = true -> sm (w s) = SMDone;
-    i_smloop : sm (w s) <> SMLoop -> in_closed (w s) = true;
+    i_wait : b2n (wait_closed (w s)) = 1 -> 2 <= mN (sm (w s));
+    i_ns : b2n (ns_closed (w s)) = 1 -> mN (sm (w s)) = 4;
+    i_smloop : 1 <= mN (sm (w s)) -> b2n (in_closed (w s)) = 1;
     (* dying is closed under closeOnce *)
-    i_once : dying (ch s) = once (ch s)
+    i_once : b2n (dying (ch s)) = b2n (once (ch s))
   }.
 
   Lemma inv_init c : Inv (init c).
-  Proof.
-    constructor; cbn; try reflexivity; try discriminate; intros; try congruence; try (intuition congruence); auto.
-  Qed.
+  Proof. constructor; cbn; lia. Qed.
 
   Ltac unf := unfold mk, with_ch, with_dp, with_fp, with_w, with_ap, with_rr, with_panic,
                      c_dying, c_trig, c_feed, c_msgs, c_errs, c_seen,
                      w_sm, w_sc, w_buf, w_subs, w_acks, w_waitc, w_nsc, wk_fresh, own, fresh in *.
+
   (* rewrite with the equations [proj s = constant] produced by the case analysis of the step *)
   Ltac rew_eqs s :=
     repeat match goal with
@@ -83,22 +105,22 @@ Module PCP.
     end.
 
   Ltac destr_inv I :=
-    destruct I as [Ipanic Iown Iscsubs Irres Ibusy Iacks0 Ifeed Ilimbo Idexit Ifclosed Ifgone Imsgs Ierrs Iref Irefs0 Iwait Ins Ismloop Ionce].
+    destruct I as [Ipanic Iown Iscsubs Irres Ibusy Iacks0 Ifeed Ilimbo Idexit Ifclosed Ifgone Imsgs Ierrs Iref1 Iref0 Iwait Ins Ismloop Ionce].
 
-  Ltac fin0 := try reflexivity; try assumption; try discriminate; try congruence; try lia;
-               try (intuition (try congruence; try discriminate; try lia)).
-  Ltac b2n_cases :=
-    repeat match goal with
-    | |- context [b2n ?b] => destruct b eqn:?
-    | H : context [b2n ?b] |- _ => destruct b eqn:?
-    end; cbn in *.
-  Ltac fin := fin0; try (b2n_cases; fin0).
+  (* facts about the numbers of the program points that are still unknown *)
+  Ltac pose_specs s :=
+    pose proof (dI_spec (dp s)); pose proof (fI_spec (fp s)); pose proof (nI_spec (sc (w s)));
+    pose proof (tI_spec (rres s)); pose proof (mN_le (sm (w s)));
+    pose proof (b2n_le1 (trig_tok (ch s))); pose proof (b2n_le1 (trig_closed (ch s)));
+    pose proof (b2n_le1 (buf (w s))); pose proof (b2n_le1 (subs (w s)));
+    pose proof (b2n_le1 (feed_full (ch s))); pose proof (b2n_le1 (feed_closed (ch s)));
+    pose proof (b2n_le1 (has_broker s)); pose proof (b2n_le1 (in_closed (w s)));
+    pose proof (b2n_le1 (wait_closed (w s))); pose proof (b2n_le1 (ns_closed (w s)));
+    pose proof (b2n_le1 (closed (msgs (ch s)))); pose proof (b2n_le1 (closed (errs (ch s))));
+    pose proof (b2n_le1 (panic s)); pose proof (b2n_le1 (dying (ch s))); pose proof (b2n_le1 (once (ch s))).
 
-  Lemma test_ADTake c s s' : Inv s -> step c s ADTake = Some s' -> Inv s'.
-  Proof.
-    intros I H. scbn H. step_cases H. destr_inv I. unf. rew_eqs s.
-    constructor; unf; cbn in *.
-    all: try (destruct (has_broker s)).
-    all: fin.
-  Qed.
+  Ltac go s H I :=
+    scbn H; unfold send_err, send_msg, put_token, w_unref, parse_ok, draining in H;
+    step_cases H; bool_hyps; pose_specs s; destr_inv I; unf; rew_eqs s;
+    (constructor; unf; cbn -[Nat.sub] in * ); rew_eqs s; cbn -[Nat.sub] in *; try lia.
 End PCP.
